@@ -331,7 +331,9 @@ def part_c(cfg):
     o = dict(data=1, coordinates=1, velocities=1, forces=0)
     if cfg["kind"] == "inf_damp":
         T = 300.0
-        ref = MD.run_md("bomd", mols, p, n, dt=dt, temp=T, seed=cfg["seed"], out=o)
+        # the un-thermostatted twin of the engine (XL-BOMD's approximate forces differ from BOMD's, so BOMD is not its limit)
+        nve_engine = {"langevin": "bomd", "xl_damped": "xl", "ksa_damped": "ksa"}[cfg["engine"]]
+        ref = MD.run_md(nve_engine, mols, p, n, dt=dt, temp=T, seed=cfg["seed"], out=o)
         out["evals"] += 1
         if ref["error"]:
             return {"error": ref["error"], "problems": [], "evals": 1}
@@ -454,7 +456,7 @@ def lattice(tier, rot):
                                     cases.append(dict(part="b", engine=e, system=system, kset=kset, dt=dt, ratio=ratio, T=T, rot=rot, com=com))
     seeds = [rot] if tier == "quick" else [0, 1, 2]
     for s in seeds:
-        for e in ["langevin"] if tier == "quick" else ["langevin", "xl_damped"]:
+        for e in ["langevin"] if tier == "quick" else ["langevin", "xl_damped", "ksa_damped"]:
             cases.append(dict(part="c", engine=e, kind="inf_damp", mol="H2O", dt=0.5, steps=8, seed=s, damps=[1e12, 1e18, 1e24, float("inf")], rot=rot))
         cases.append(dict(part="c", engine="langevin", kind="T0_rest", mol="H2CO", dt=0.5, steps=12, seed=s, damps=[5.0], rot=rot))
         cases.append(dict(part="c", engine="langevin", kind="T0_user", mol="CH4+H2O", dt=0.5, steps=12, seed=s, damps=[20.0], rot=rot))
@@ -471,7 +473,11 @@ def _desc(c, oracle, mag, extra=None):
 
 
 def evaluate(chk, cases, verbose=False):
-    res = pmap(run_cfg, cases, chunk=4, timeout=1200, progress="C12")
+    # real-MD limit cases are heavy (one process each); identification cases are milliseconds (chunked)
+    cases = sorted(cases, key=lambda c: {"c": 0, "b": 1, "a": 2}[c["part"]])
+    heavy = [c for c in cases if c["part"] == "c"]
+    light = [c for c in cases if c["part"] != "c"]
+    res = pmap(run_cfg, heavy, chunk=1, timeout=1800, progress="C12 limits") + pmap(run_cfg, light, chunk=6, timeout=1200, progress="C12 identification")
     nprob = 0
     elements = set()
     worst = {"fd": 0.0, "T": 0.0, "friction": 0.0}
@@ -497,7 +503,7 @@ def evaluate(chk, cases, verbose=False):
         worst["T"] = max(worst["T"], r.get("T_dev", 0.0))
         worst["friction"] = max(worst["friction"], r.get("friction_dev", 0.0))
         if chk:
-            chk.case(k, nontrivial=True, outcome=r.get("sig"))
+            chk.case(k, nontrivial=True, outcome=r.get("sig"), sample=dict(case=k, **{kk: v for kk, v in r.items() if kk in ("evals", "worst", "rho", "T_dev", "friction_dev", "lyap_residual", "draws_per_step", "devs", "ratio_dev")}))
             chk.evaluations += max(0, r["evals"] - 1)
             if c["part"] == "b":
                 chk.traces += 1
